@@ -7,6 +7,10 @@
 //! the parsers every single-byte deviation / truncation / attribute and
 //! element deletion or duplication of one document per message type plus all
 //! short byte strings.
+//! Round 8 adds sequences (history.independent: what happened before on the
+//! same thread), the process environment (TZ), the parameters of the call
+//! (Display format specs, sink kinds, entry points) and who else holds the
+//! values (ownership.shared_values, handed_out.sequences).
 //! Oracles: (i) parse(write(m)) == m, (ii) written bytes are well-formed XML
 //! per the strict checker in this file (and quick-xml's raw reader as a
 //! second opinion), (iii) parsers return without panicking.
@@ -2601,6 +2605,40 @@ impl AnyMsg {
     }
 }
 
+/// A message with the same identity as `m` (same type, handles, URIs, tags, class names) and other content.
+fn variant(fx: &Fx, m: &AnyMsg) -> Option<AnyMsg> {
+    let other_set = || ResourceSet::new(fx.asn[3].clone(), fx.v4[2].clone(), fx.v6[2].clone());
+    Some(match m.clone() {
+        AnyMsg::Prov(m) => { let (s, r, p) = m.unpack(); AnyMsg::Prov(match p {
+            prov::Payload::List => return None,
+            prov::Payload::ListResponse(l) => prov::Message::list_response(s, r, prov::ResourceClassListResponse::new(match l.classes().first() {
+                None => vec![prov::ResourceClassEntitlements::new(prov::ResourceClassName::from("other"), other_set(), fx.times[2], vec![], prov::SigningCert::new(fx.rsyncs[1].clone(), fx.certs[0].1.clone()))],
+                Some(c) => vec![prov::ResourceClassEntitlements::new(c.class_name().clone(), other_set(), fx.times[2], vec![], c.signing_cert().clone())] })),
+            prov::Payload::Issue(q) => { let (n, _, c) = q.unpack(); prov::Message::issue(s, r, prov::IssuanceRequest::new(n, fx.limit(2, 0, 3), c)) }
+            prov::Payload::IssueResponse(q) => { let i = q.into_issued(); let e = class_of(fx, &Class { name: 0, url: 3, asn: 3, v4: 2, v6: 2, time: 2, signing: 0, issued: vec![] });
+                prov::Message::issue_response(s, r, prov::IssuanceResponse::new(e.class_name().clone(), other_set(), fx.times[2], i, e.signing_cert().clone())) }
+            prov::Payload::Revoke(q) => prov::Message::revoke(s, r, prov::RevocationRequest::new(q.class_name().clone(), fx.keys[1])),
+            prov::Payload::RevokeResponse(q) => prov::Message::revoke_response(s, r, prov::RevocationResponse::from(&prov::RevocationRequest::new(q.class_name().clone(), fx.keys[1]))),
+            prov::Payload::ErrorResponse(_) => prov::Message::not_performed_response(s, r, prov::NotPerformedResponse::err_1302()).ok()?,
+        })}
+        AnyMsg::Pub(m) => AnyMsg::Pub(match m {
+            publ::Message::Query(publ::Query::List) | publ::Message::Reply(publ::Reply::Success) => return None,
+            publ::Message::Query(publ::Query::Delta(d)) => { let mut n = publ::PublishDelta::empty(); for e in d.into_elements() { match e {
+                publ::PublishDeltaElement::Publish(p) => { let (t, u, _) = p.unpack(); n.add_publish(publ::Publish::new(t, u, Base64::from_content(b"other content"))) }
+                publ::PublishDeltaElement::Update(p) => { let (t, u, _, _) = p.unpack(); n.add_update(publ::Update::new(t, u, Base64::from_content(b"other"), fx.hashes[0])) }
+                publ::PublishDeltaElement::Withdraw(p) => { let (t, u, _) = p.unpack(); n.add_withdraw(publ::Withdraw::new(t, u, fx.hashes[0])) }
+            }} publ::Message::delta(n) }
+            publ::Message::Reply(publ::Reply::List(l)) => { let mut els: Vec<publ::ListElement> = l.into_elements().into_iter().enumerate().map(|(i, e)| publ::ListElement::new(e.unpack().0, scale_hash(i))).collect();
+                if els.is_empty() { els.push(publ::ListElement::new(fx.rsyncs[1].clone(), fx.hashes[0])) } publ::Message::list_reply(publ::ListReply::new(els)) }
+            publ::Message::Reply(publ::Reply::ErrorReply(e)) => { let mut n = publ::ErrorReply::empty(); for _ in e.errors() { n.add_error(publ::ReportError::with_code(publ::ReportErrorCode::ConsistencyProblem)) } publ::Message::error(n) }
+        }),
+        AnyMsg::Child(m) => { let (_, h, t) = m.unpack(); if t.is_some() { return None } AnyMsg::Child(idx::ChildRequest::new(Base64::from_content(b"another certificate"), h)) }
+        AnyMsg::Parent(m) => AnyMsg::Parent(idx::ParentResponse::new(Base64::from_content(b"another certificate"), m.parent_handle().clone(), m.child_handle().clone(), fx.services[fx.svc_plain].clone(), m.tag().cloned())),
+        AnyMsg::Publisher(m) => { let (_, h, t) = m.unpack(); AnyMsg::Publisher(idx::PublisherRequest::new(Base64::from_content(b"another certificate"), h, t)) }
+        AnyMsg::Repo(m) => AnyMsg::Repo(idx::RepositoryResponse::new(Base64::from_content(b"another certificate"), m.publisher_handle().clone(), m.service_uri().clone(), fx.rsyncs[2].clone(), None, m.tag().cloned())),
+    })
+}
+
 fn hd<T>(s: &str) -> idx::Handle<T> { idx::Handle::from_str(s).expect("menu handle") }
 fn text(v: &[u8]) -> String { String::from_utf8_lossy(v).into_owned() }
 
@@ -2627,7 +2665,8 @@ fn message_menu(fx: &Fx) -> Vec<(&'static str, AnyMsg)> {
     let mut v: Vec<(&'static str, AnyMsg)> = vec![
         ("prov.list", AnyMsg::Prov(prov::Message::list(hd("child"), hd("Parent/1")))),
         ("prov.list.long-handles", AnyMsg::Prov(prov::Message::list(fx.handle(fx.h_a255), fx.handle(fx.h_slash255)))),
-        ("prov.list_response", AnyMsg::Prov(prov::Message::list_response(hd("child"), hd("parent"), prov::ResourceClassListResponse::new(vec![e.clone()])))),
+        // (a class without certificates: the certificate element is met in prov.issue_response, several classes and certificates among the predecessors)
+        ("prov.list_response", AnyMsg::Prov(prov::Message::list_response(hd("child"), hd("parent"), prov::ResourceClassListResponse::new(vec![class_of(fx, &Class { name: 1, url: 2, asn: 6, v4: 9, v6: 8, time: 4, signing: 2, issued: vec![] })])))),
         ("prov.list_response.empty", AnyMsg::Prov(prov::Message::list_response(hd("child"), hd("parent"), prov::ResourceClassListResponse::new(vec![])))),
         ("prov.issue", AnyMsg::Prov(prov::Message::issue(hd("child"), hd("parent"), prov::IssuanceRequest::new(fx.class(special), fx.limit(6, 8, 8), fx.csrs[0].1.clone())))),
         ("prov.issue_response", AnyMsg::Prov(prov::Message::issue_response(hd("child"), hd("parent"), prov::IssuanceResponse::new(
@@ -2711,7 +2750,7 @@ fn first_difference(a: &str, b: &str) -> String {
     format!("[at octet {k}] ...{}", &a[from..])
 }
 
-/// Oracles (i) and (ii) on one message, as text.
+/// Oracles (i) and (ii) on one message through every writer entry point, as text.
 fn observe_roundtrip(m: &AnyMsg) -> String {
     let mut doc = Vec::new();
     let w = m.write_xml(&mut doc).map_err(|e| e.to_string());
@@ -2721,7 +2760,10 @@ fn observe_roundtrip(m: &AnyMsg) -> String {
         Ok(b) => format!("PARSES BACK UNEQUAL: {}", trunc(&format!("{b:?}"), 600)),
         Err(e) => format!("DOES NOT PARSE BACK: {e}"),
     };
-    format!("write_xml={w:?} document: {} -- {wf}; {back}", text(&doc))
+    // the other entry points give the same octets
+    let same = |what: &str, got: &[u8]| if got == doc.as_slice() { format!("{what} agrees") } else { format!("{what} DIFFERS: {}", trunc(&first_difference(&text(got), &text(&doc)), 300)) };
+    let (a, b, c) = (m.to_vec(), m.to_xml_string(), m.display().map(|d| d.to_string()));
+    format!("write_xml={w:?} document: {} -- {wf}; {back}; {}; {}; {}", text(&doc), same("to_xml_bytes", &a), same("to_xml_string", b.as_bytes()), c.map(|c| same("Display", c.as_bytes())).unwrap_or_default())
 }
 
 /// Captured files the decode-pipeline subjects and predecessors use, read once.
@@ -2777,7 +2819,8 @@ fn shown_values<'a>(fx: &'a Fx, menu: &'a [(&'static str, AnyMsg)]) -> Vec<Shown
 }
 
 /// The subjects: one evaluation of every oracle family per message type, accepted and rejected.
-fn history_subjects<'a>(fx: &'a Fx, menu: &'a [(&'static str, AnyMsg)], docs: &'a [Vec<u8>], shown: &'a [Shown<'a>], files: &'a Files) -> Vec<(String, Act<'a>)> {
+/// `full`: every time of the alphabet, every captured CMS, every ID certificate (the environment space); otherwise one or two of each (the sequence space runs the subjects tens of thousands of times).
+fn history_subjects<'a>(fx: &'a Fx, menu: &'a [(&'static str, AnyMsg)], docs: &'a [Vec<u8>], shown: &'a [Shown<'a>], files: &'a Files, full: bool) -> Vec<(String, Act<'a>)> {
     let mut v: Vec<(String, Act<'a>)> = Vec::new();
     for (name, m) in menu { v.push((format!("round trip of {name}"), Box::new(move || observe_roundtrip(m)))) }
     // rejections at two stages, and a document of another type, per parser
@@ -2791,26 +2834,23 @@ fn history_subjects<'a>(fx: &'a Fx, menu: &'a [(&'static str, AnyMsg)], docs: &'
         })));
     }
     v.push(("Display / to_string of every value type".into(), Box::new(move || shown.iter().map(|s| format!("{}: {}\n", s.name, trunc(&s.value.to_string(), 300))).collect())));
-    v.push(("to_xml_string / Display / to_xml_bytes agree".into(), Box::new(move || menu.iter().map(|(n, m)| {
-        let (a, b, c) = (m.to_vec(), m.to_xml_string(), m.display().map(|d| d.to_string()));
-        format!("{n}: {} {}\n", a == b.as_bytes(), c.is_none_or(|c| c == b))
-    }).collect())));
     // times: every not-after of the alphabet written and parsed; offsets and fractions decoded and written again
     v.push(("not-after times written, parsed, respelled".into(), Box::new(move || {
         let mut o = String::new();
         for (i, t) in fx.times.iter().enumerate() {
+            if !full && i != 0 && i != 4 { continue }
             let e = prov::ResourceClassEntitlements::new(prov::ResourceClassName::from("t"), ResourceSet::empty(), *t, vec![], prov::SigningCert::new(fx.rsyncs[1].clone(), fx.certs[0].1.clone()));
             let m = prov::Message::list_response(hd("c"), hd("p"), prov::ResourceClassListResponse::new(vec![e]));
             let d = prov_write(&m);
             let s = text(&d);
             let at = s.find("resource_set_notafter").unwrap_or(0);
             o.push_str(&format!("time#{i} {} {} {:?}\n", t.to_rfc3339(), &s[at..(at + 60).min(s.len())], prov_parse(&d).map(|b| b == m)));
-            for (from, to) in [("Z\"", "+00:00\""), ("Z\"", "-00:00\""), ("Z\"", ".250Z\"")] {
+            for (from, to) in [("Z\"", "+00:00\""), ("Z\"", "-00:00\""), ("Z\"", ".250Z\"")].into_iter().skip(if full { 0 } else { 2 - i / 4 }).take(if full { 3 } else { 1 }) {
                 let respelled = s.replacen(&format!("{}{from}", &t.to_rfc3339()[..19]), &format!("{}{to}", &t.to_rfc3339()[..19]), 1);
                 o.push_str(&format!("  {to} -> {:?}\n", prov_parse(respelled.as_bytes()).map(|b| { let w = text(&prov_write(&b)); let at = w.find("resource_set_notafter").unwrap_or(0); w[at..(at + 60).min(w.len())].to_string() })));
             }
         }
-        for off in ["2030-01-02T15:04:05+12:00", "2030-01-01T13:04:05-14:00", "2030-01-02T04:04:05+01:00", "2029-12-31T23:30:00-05:30"] {
+        for off in ["2030-01-02T15:04:05+12:00", "2030-01-01T13:04:05-14:00", "2030-01-02T04:04:05+01:00", "2029-12-31T23:30:00-05:30"].into_iter().take(if full { 4 } else { 1 }) {
             let e = prov::ResourceClassEntitlements::new(prov::ResourceClassName::from("t"), ResourceSet::empty(), fx.times[0], vec![], prov::SigningCert::new(fx.rsyncs[1].clone(), fx.certs[0].1.clone()));
             let s = text(&prov_write(&prov::Message::list_response(hd("c"), hd("p"), prov::ResourceClassListResponse::new(vec![e])))).replacen("2030-01-02T03:04:05Z", off, 1);
             o.push_str(&format!("{off} -> {:?}\n", prov_parse(s.as_bytes()).map(|b| match b.payload() { prov::Payload::ListResponse(l) => l.classes()[0].not_after().to_rfc3339(), _ => "?".into() })));
@@ -2819,26 +2859,26 @@ fn history_subjects<'a>(fx: &'a Fx, menu: &'a [(&'static str, AnyMsg)], docs: &'
     })));
     v.push(("CMS wrappers decoded and validated".into(), Box::new(move || {
         let mut o = String::new();
-        for (f, bytes) in &files.cms {
+        for (f, bytes) in files.cms.iter().skip(if full { 0 } else { 1 }).take(if full { 3 } else { 1 }) {
             match prov::ProvisioningCms::decode(bytes.as_slice()) {
                 Err(e) => o.push_str(&format!("{f}: {e}\n")),
                 Ok(cms) => {
                     o.push_str(&format!("{f}: fnv{:016x}", fnv64(&prov_write(cms.message()))));
                     if let Some(k) = &files.ta_key {
-                        for (y, mo) in FIXED_INSTANTS { o.push_str(&format!(" {y}:{}", cms.validate_at(k, Time::utc(y, mo, 1, 0, 0, 0)).is_ok())) }
-                        o.push_str(&format!(" now-agrees:{}", cms.validate(k).is_ok() == cms.validate_at(k, Time::now()).is_ok()));
+                        for (y, mo) in FIXED_INSTANTS.into_iter().skip(if full { 0 } else { 1 }).take(if full { 4 } else { 2 }) { o.push_str(&format!(" {y}:{}", cms.validate_at(k, Time::utc(y, mo, 1, 0, 0, 0)).is_ok())) }
+                        if full { o.push_str(&format!(" now-agrees:{}", cms.validate(k).is_ok() == cms.validate_at(k, Time::now()).is_ok())) }
                     }
                     o.push('\n');
                 }
             }
         }
-        match publ::PublicationCms::decode(files.pdu200.as_slice()) {
+        if full { match publ::PublicationCms::decode(files.pdu200.as_slice()) {
             Err(e) => o.push_str(&format!("pdu_200: {e}\n")),
             Ok(cms) => {
                 if let Some(k) = &files.ta_key { for (y, mo) in FIXED_INSTANTS { o.push_str(&format!(" {y}:{}", cms.validate_at(k, Time::utc(y, mo, 1, 0, 0, 0)).is_ok())) } }
                 o.push_str(&format!(" pdu_200: {}\n", text(&pub_write(&cms.into_message()))));
             }
-        }
+        }}
         o
     })));
     v.push(("identity certificates validated".into(), Box::new(move || {
@@ -2846,15 +2886,16 @@ fn history_subjects<'a>(fx: &'a Fx, menu: &'a [(&'static str, AnyMsg)], docs: &'
         match idx::ParentResponse::parse(files.parent_response.as_slice()) {
             Err(e) => o.push_str(&format!("parent response: {e}\n")),
             Ok(r) => {
-                for (y, mo) in FIXED_INSTANTS { o.push_str(&format!(" {y}:{:?}", r.validate_at(Time::utc(y, mo, 1, 0, 0, 0)).map(|c| fnv64(c.to_captured().as_slice())).map_err(|e| e.to_string()))) }
-                o.push_str(&format!(" now-agrees:{}\n{}\n", r.validate().is_ok() == r.validate_at(Time::now()).is_ok(), r.to_xml_string()));
+                for (y, mo) in FIXED_INSTANTS.into_iter().skip(if full { 0 } else { 1 }).take(if full { 4 } else { 2 }) { o.push_str(&format!(" {y}:{:?}", r.validate_at(Time::utc(y, mo, 1, 0, 0, 0)).map(|c| fnv64(c.to_captured().as_slice())).map_err(|e| e.to_string()))) }
+                if full { o.push_str(&format!(" now-agrees:{}", r.validate().is_ok() == r.validate_at(Time::now()).is_ok())) }
+                o.push_str(&format!("\n{}\n", r.to_xml_string()));
             }
         }
-        match idx::RepositoryResponse::parse(files.repo_response.as_slice()) {
+        if full { match idx::RepositoryResponse::parse(files.repo_response.as_slice()) {
             Err(e) => o.push_str(&format!("repository response: {e}\n")),
             Ok(r) => o.push_str(&format!(" now-agrees:{} {:?}\n{r}\n", r.validate().is_ok() == idx::validate_idcert_at(r.id_cert(), Time::now()).is_ok(), r.repo_info().resolve("ns", "f.cer").to_string())),
-        }
-        for i in 2..fx.idcerts.len() { o.push_str(&format!(" {}:{:?}", fx.idcerts[i].0, idx::validate_idcert_at(&Base64::from_content(&fx.idcerts[i].1), Time::utc(2030, 1, 1, 0, 0, 0)).map(|_| "valid").map_err(|e| e.to_string()))) }
+        }}
+        for i in (2..fx.idcerts.len()).take(if full { 9 } else { 1 }) { o.push_str(&format!(" {}:{:?}", fx.idcerts[i].0, idx::validate_idcert_at(&Base64::from_content(&fx.idcerts[i].1), Time::utc(2030, 1, 1, 0, 0, 0)).map(|_| "valid").map_err(|e| e.to_string()))) }
         o
     })));
     v.push(("value constructors, accepted and refused".into(), Box::new(|| {
@@ -2885,11 +2926,13 @@ enum Pred {
     ParseSub { msg: usize, k: usize, byte: u8 },
     /// a successful round trip of menu message `msg`
     Roundtrip { msg: usize },
+    /// a successful round trip of a message with the same identity as menu message `msg` and other content
+    Variant { msg: usize },
     /// entry `0` of the list of other operations (decode pipelines, constructors, larger values)
     Other(usize),
 }
 
-struct Hist<'a> { menu: &'a [(&'static str, AnyMsg)], docs: &'a [Vec<u8>], shown: &'a [Shown<'a>], other: Vec<(String, Act<'a>)> }
+struct Hist<'a> { menu: &'a [(&'static str, AnyMsg)], variants: Vec<Option<AnyMsg>>, docs: &'a [Vec<u8>], shown: &'a [Shown<'a>], other: Vec<(String, Act<'a>)> }
 
 impl Pred {
     fn name(&self, h: &Hist) -> String {
@@ -2901,6 +2944,7 @@ impl Pred {
             Pred::ParseCut { msg, k, parser } => format!("{} parser on the {} document cut after {k} of {} octets", parser.name(), h.menu[msg].0, h.docs[msg].len()),
             Pred::ParseSub { msg, k, byte } => format!("parse of the {} document with octet {k} := {:?}", h.menu[msg].0, byte as char),
             Pred::Roundtrip { msg } => format!("successful round trip of {}", h.menu[msg].0),
+            Pred::Variant { msg } => format!("successful round trip (write_xml, to_xml_bytes, to_xml_string) of a message with the identity of {} (same type, handles, URIs, tags) and other content", h.menu[msg].0),
             Pred::Other(i) => h.other[i].0.clone(),
         }
     }
@@ -2916,6 +2960,8 @@ impl Pred {
             Pred::ParseCut { msg, k, parser } => format!("{:?}", AnyMsg::parse(parser, &h.docs[msg][..k]).map(|_| "accepted")),
             Pred::ParseSub { msg, k, byte } => { let mut d = h.docs[msg].clone(); d[k] = byte; format!("{:?}", AnyMsg::parse(h.menu[msg].1.parser(), &d).map(|_| "accepted")) }
             Pred::Roundtrip { msg } => { let m = &h.menu[msg].1; format!("{:?}", AnyMsg::parse(m.parser(), &m.to_vec()).map(|b| b == *m)) }
+            Pred::Variant { msg } => { let Some(m) = &h.variants[msg] else { return "no variant".into() }; let mut d = Vec::new(); let w = m.write_xml(&mut d).is_ok();
+                format!("{w} {} {} {:?}", m.to_vec() == d, m.to_xml_string().as_bytes() == d.as_slice(), AnyMsg::parse(m.parser(), &d).map(|b| b == *m)) }
             Pred::Other(i) => (h.other[i].1)(),
         }
     }
@@ -2988,6 +3034,15 @@ fn other_predecessors<'a>(ctx: &'a Ctx, fx: &'a Fx, files: &'a Files, signer: &'
         let m = prov::Message::list_response(hd("child"), hd("parent"), prov::ResourceClassListResponse::new((0..3).map(|j| class_of(fx, &Class { name: j, url: 1 + j, asn: j, v4: j, v6: j, time: j, signing: j, issued: its.to_vec() })).collect()));
         format!("{:?}", prov_parse(&prov_write(&m)).map(|b| b == m))
     })));
+    v.push(("round trip of prov.list / pub.list_reply / repository_response with the menu's handles and URIs in another letter case".into(), Box::new(move || {
+        let m = prov::Message::list(hd("CHILD"), hd("PARENT/1"));
+        let up = |u: &str| u.replacen("rsync://", "RSYNC://", 1).replacen("https://", "HTTPS://", 1).replacen("http://", "HTTP://", 1);
+        let rs = |i: usize| uri::Rsync::from_str(&up(fx.rsyncs[i].as_str()));
+        let (Ok(a), Ok(b), Ok(n), Ok(svc)) = (rs(3), rs(0), uri::Https::from_str(&up(fx.httpss[4].as_str())), idx::ServiceUri::from_str(&up(SVC_PLAIN))) else { return "Err(upper-case scheme refused)".into() };
+        let l = publ::Message::list_reply(publ::ListReply::new(vec![publ::ListElement::new(a.clone(), fx.hashes[2]), publ::ListElement::new(b.clone(), fx.hashes[0])]));
+        let r = idx::RepositoryResponse::new(Base64::from_content(&fx.idcerts[4].1), hd("ALICE_BOB"), svc, b, Some(n), Some("T'1".into()));
+        format!("{:?} {:?} {:?}", prov_parse(&prov_write(&m)).map(|x| x == m), pub_parse(&pub_write(&l)).map(|x| x == l), idx::RepositoryResponse::parse(r.to_xml_vec().as_slice()).map(|x| x == r).map_err(idx_err))
+    })));
     v.push(("round trip of a revoke with the same class name and sender, another key and recipient".into(), Box::new(move || {
         let m = prov::Message::revoke(hd("child"), hd("other"), prov::RevocationRequest::new(prov::ResourceClassName::from("a\"b'c > d"), fx.keys[0]));
         format!("{:?}", prov_parse(&prov_write(&m)).map(|b| b == m))
@@ -3042,7 +3097,7 @@ fn history_predecessors(h: &Hist, thorough: bool) -> Vec<Pred> {
             if thin.contains(&k) { continue }
             v.push(Pred::FailWrite { msg, k, fault: Fault::Panic });
             if !m.uses_encoder_writer() {
-                v.push(Pred::FailWrite { msg, k, fault: Fault::Zero });
+                if thorough || k % 3 == 0 { v.push(Pred::FailWrite { msg, k, fault: Fault::Zero }) }
                 v.push(Pred::SliceWrite { msg, k, cursor: false });
                 if thorough { v.push(Pred::SliceWrite { msg, k, cursor: true }) }
             }
@@ -3051,9 +3106,10 @@ fn history_predecessors(h: &Hist, thorough: bool) -> Vec<Pred> {
             if thin.contains(&k) { continue }
             v.push(Pred::ParseCut { msg, k, parser: own });
             if k % 5 == 0 { v.push(Pred::ParseCut { msg, k, parser: next }) }
-            match k % 7 { 0 => v.push(Pred::ParseSub { msg, k, byte: b'<' }), 3 => v.push(Pred::ParseSub { msg, k, byte: b'&' }), 5 => v.push(Pred::ParseSub { msg, k, byte: b'"' }), _ => {} }
+            match k % 7 { 0 => v.push(Pred::ParseSub { msg, k, byte: b'<' }), 1 => v.push(Pred::ParseSub { msg, k, byte: b'B' }), 3 => v.push(Pred::ParseSub { msg, k, byte: b'&' }), 5 => v.push(Pred::ParseSub { msg, k, byte: b'"' }), _ => {} }
         }
         v.push(Pred::Roundtrip { msg });
+        if h.variants[msg].is_some() { v.push(Pred::Variant { msg }) }
     }
     for (val, s) in h.shown.iter().enumerate() {
         let len = guard(|| s.value.to_string().len()).unwrap_or(0);
@@ -3066,11 +3122,11 @@ fn history_predecessors(h: &Hist, thorough: bool) -> Vec<Pred> {
 fn space_history(ctx: &Ctx, sh: &Shared) {
     let thorough = ctx.tier.is_thorough();
     let sp = ctx.space("history.independent",
-        "sequences on one dedicated OS thread (std::thread, fresh thread-locals): one predecessor, then every subject once (the first subject rotates with the predecessor's number, so that every subject is met first after every kind of predecessor; thorough: then every subject again in reverse order); each observation (document written, well-formedness verdict, parse result, equality; all as text) must equal the one the same subject gives when it is the first thing a new thread does. Subjects: the round trip of one message of every type of the three protocols (24 messages), rejections by each of the 6 parsers, Display of every value type, the to_xml_* family, not-after times, CMS wrappers, identity-certificate validation, value constructors. Predecessors, for EVERY message of the menu: write_xml into a sink that returns an error after k octets for every k up to the document length + 1; into a sink that panics / answers Ok(0) / a `&mut [u8]` of k octets for every k (quick: inside long base64 runs every 61st k; Ok(0) kinds not for documents written through base64's EncoderWriter); the document cut after every k into its parser (every 5th into another parser), '<' '&' '\"' substituted at every 7th offset; a successful round trip; Display of every value into a fmt::Write failing after every k; CMS decode / validate / create failing at every stage; constructors refusing; larger and same-identity values. thorough: additionally all ordered pairs of a menu of predecessors taken at a prime stride. non-trivial = sequences whose predecessor took an error or panic path");
+        "sequences on one dedicated OS thread (std::thread, fresh thread-locals): one predecessor, then every subject once (the first subject rotates with the predecessor's number, so that every subject is met first after every kind of predecessor, and the predecessors that are not swept over k are run once per subject as the first; thorough: then every subject again in reverse order); each observation (document written by write_xml, well-formedness verdict, parse result, equality, agreement of to_xml_bytes / to_xml_string / Display with it; all as text) must equal the one the same subject gives when it is the first thing a new thread does. Subjects: the round trip of one message of every type of the three protocols (24 messages), rejections by each of the 6 parsers, Display of every value type, not-after times, CMS wrappers, identity-certificate validation, value constructors. Predecessors, for EVERY message of the menu: write_xml into a sink that returns an error after k octets for EVERY k up to the document length + 1; into a sink that panics after k octets, into a `&mut [u8]` of k octets and into a sink that answers Ok(0) after k octets for every k (quick: for these three, and for the cut documents, in the interior of base64 runs of 64 and more characters, which reach the sink in one or a few writes, every 61st k only, and the Ok(0) sink every 3rd k; thorough: every k; the Ok(0) kinds not for documents written through base64's EncoderWriter, which retries such a sink for ever); the document cut after every k into its parser (every 5th into another parser), '<' 'B' '&' '\"' substituted at every 7th offset (a letter mostly gives another valid message of the same length); a successful round trip of the message and of a message with the same identity (type, handles, URIs, tags) and other content; Display of every value into a fmt::Write failing after every k; CMS decode / validate / create failing at every stage; constructors refusing; larger and same-identity values. thorough: additionally all ordered pairs of a menu of predecessors taken at a prime stride. non-trivial = sequences whose predecessor took an error or panic path");
     let shown = shown_values(sh.fx, &sh.menu);
     let signer = rpki_verif::engine::signer::PoolSigner::load();
-    let h = Hist { menu: &sh.menu, docs: &sh.docs, shown: &shown, other: other_predecessors(ctx, sh.fx, &sh.files, &signer) };
-    let subjects = history_subjects(sh.fx, &sh.menu, &sh.docs, &shown, &sh.files);
+    let h = Hist { menu: &sh.menu, variants: sh.menu.iter().map(|(_, m)| guard(|| variant(sh.fx, m)).ok().flatten()).collect(), docs: &sh.docs, shown: &shown, other: other_predecessors(ctx, sh.fx, &sh.files, &signer) };
+    let subjects = history_subjects(sh.fx, &sh.menu, &sh.docs, &shown, &sh.files, false);
     let ns = subjects.len();
     let baseline: Vec<String> = subjects.iter().map(|(_, f)| on_fresh_thread(|| observe(f.as_ref()))).collect();
     if std::env::var_os("C11_TIMING").is_some() { for (n, f) in &subjects { let t = std::time::Instant::now(); for _ in 0..20 { observe(f.as_ref()); } eprintln!("[subject] {:>8.1} us  {n}", t.elapsed().as_secs_f64() * 1e6 / 20.0) } }
@@ -3092,18 +3148,22 @@ fn space_history(ctx: &Ctx, sh: &Shared) {
         let failed_path = pre_obs.iter().any(|o| o.contains("Err(") || o.starts_with("PANIC"));
         sp.evals(obs.len() as u64);
         if failed_path { sp.nontrivial(1); sp.outcome("after-a-failed-operation") } else { sp.outcome("after-a-successful-operation") }
+        let sequence: Vec<usize> = obs.iter().map(|o| o.0).collect();
         for (pos, (i, rev, o)) in obs.into_iter().enumerate() {
             if o != baseline[i] {
                 let names: Vec<String> = preds.iter().map(|p| p.name(&h)).collect();
                 fails.push((order + 1) << 12 | pos as u64, "C11.history.independent",
-                    format!("after [{}]: {}{}", names.join("; then "), subjects[i].0, if rev { " (second, reverse pass)" } else if pos == 0 { " (first subject)" } else { "" }),
+                    format!("after [{}]: {}{}", names.join("; then "), subjects[i].0, if pos == 0 { " (first subject)".to_string() } else { format!(" ({}directly after the subject {:?})", if rev { "second, reverse pass, " } else { "" }, subjects[sequence[pos - 1]].0) }),
                     format!("observed {} -- as the first operation of a new thread the same subject gives {}", trunc(&first_difference(&o, &baseline[i]), 400), trunc(&first_difference(&baseline[i], &o), 400)));
             }
         }
     };
     let preds = history_predecessors(&h, thorough);
     preds.par_iter().enumerate().for_each(|(pi, p)| run_sequence(pi as u64, &[p]));
-    let mut bound = format!("{} predecessors x {} subjects{}", preds.len(), ns, if thorough { " x 2 passes" } else { "" });
+    // the predecessors that are not part of a sweep over k: once with every subject as the first one after it
+    let single: Vec<&Pred> = preds.iter().filter(|p| matches!(p, Pred::Roundtrip { .. } | Pred::Variant { .. } | Pred::Other(_))).collect();
+    (0..single.len() * ns).into_par_iter().for_each(|i| run_sequence((1 << 30) | i as u64, &[single[i / ns]]));
+    let mut bound = format!("{} predecessors x {} subjects{}; {} one-off predecessors x every subject first", preds.len(), ns, if thorough { " x 2 passes" } else { "" }, single.len());
     if thorough {
         let stride = [1usize, 211, 307, 401, 503, 601, 701, 809, 907, 1009, 1511, 2003].into_iter().find(|s| preds.len() / s <= 260).unwrap_or(2003);
         let menu: Vec<&Pred> = preds.iter().step_by(stride).collect();
@@ -3115,7 +3175,7 @@ fn space_history(ctx: &Ctx, sh: &Shared) {
     let mut kinds: BTreeMap<&'static str, u64> = BTreeMap::new();
     for p in &preds { *kinds.entry(match p { Pred::FailWrite { fault: Fault::Error, .. } => "write into a sink returning an error after k octets", Pred::FailWrite { fault: Fault::Zero, .. } => "write into a sink answering Ok(0) after k octets",
         Pred::FailWrite { fault: Fault::Panic, .. } => "write into a sink panicking after k octets", Pred::SliceWrite { .. } => "write into a `&mut [u8]` of k octets", Pred::FmtFail { .. } => "Display into a fmt::Write failing after k octets",
-        Pred::ParseCut { .. } => "parse of a document cut after k octets", Pred::ParseSub { .. } => "parse of a document with one octet substituted", Pred::Roundtrip { .. } => "successful round trip", Pred::Other(_) => "decode pipelines, constructors, larger values" }).or_insert(0) += 1 }
+        Pred::ParseCut { .. } => "parse of a document cut after k octets", Pred::ParseSub { .. } => "parse of a document with one octet substituted", Pred::Roundtrip { .. } => "successful round trip", Pred::Variant { .. } => "successful round trip of a message with the same identity and other content", Pred::Other(_) => "decode pipelines, constructors, larger values" }).or_insert(0) += 1 }
     sp.set("predecessors_by_kind", serde_json::json!(kinds));
     sp.set("subjects", serde_json::json!(subjects.iter().map(|s| s.0.clone()).collect::<Vec<_>>()));
     sp.set("menu_documents", serde_json::json!(sh.menu.iter().zip(&sh.docs).map(|((n, _), d)| format!("{n}: {} octets", d.len())).collect::<Vec<_>>()));
@@ -3129,7 +3189,7 @@ fn space_history(ctx: &Ctx, sh: &Shared) {
 /// All subject observations, one group per subject, for comparison across processes.
 fn subject_dump(sh: &Shared) -> String {
     let shown = shown_values(sh.fx, &sh.menu);
-    history_subjects(sh.fx, &sh.menu, &sh.docs, &shown, &sh.files).iter().map(|(n, f)| format!("## {n}\n{}\n", on_fresh_thread(|| observe(f.as_ref())))).collect()
+    history_subjects(sh.fx, &sh.menu, &sh.docs, &shown, &sh.files, true).iter().map(|(n, f)| format!("## {n}\n{}\n", on_fresh_thread(|| observe(f.as_ref())))).collect()
 }
 
 fn space_environment(ctx: &Ctx, sh: &Shared) {
@@ -3276,7 +3336,7 @@ fn write_into(m: &AnyMsg, k: SinkKind, times: usize, doc_len: usize) -> Result<V
 
 fn space_sinks(ctx: &Ctx, sh: &Shared) {
     let sp = ctx.space("call_parameters.sinks",
-        "every writer entry point (write_xml of the six message types; to_xml_bytes / to_xml_vec, to_xml_string, Display and to_string where they exist; ProvisioningCms::create / PublicationCms::create, whose signed content is read back) for every message of the menu (one per message type of the three protocols and more) into every sink kind: Vec, `&mut dyn Write`, io::Cursor<Vec>, a `&mut [u8]` of exactly the document's size and 10 octets larger, BufWriter of capacity 1 / 7 / 8192, LineWriter, sinks that accept at most 1 / 2 / 3 / 7 / 64 octets per call, a sink that answers every other call with ErrorKind::Interrupted, a sink taking vectored writes; the message written once and twice in a row into the same sink: the octets that arrive are exactly the document (twice: the document twice) the first evaluation of the message on a new thread gave, and they parse back to the message; non-trivial = short-write, interrupting and buffering sinks");
+        "every writer entry point (write_xml of the six message types; to_xml_bytes / to_xml_vec, to_xml_string, Display and to_string where they exist; ProvisioningCms::create / PublicationCms::create, whose signed content is read back) for every message of the menu (one per message type of the three protocols and more) into every sink kind: Vec, `&mut dyn Write`, io::Cursor<Vec>, a `&mut [u8]` of exactly the document's size and 10 octets larger, BufWriter of capacity 1 / 7 / 8192, LineWriter, sinks that accept at most 1 / 2 / 3 / 7 / 64 octets per call, a sink that answers every other call with ErrorKind::Interrupted, a sink taking vectored writes; the message written once and twice in a row into the same sink: IF write_xml returns Ok, the octets that arrived are exactly the document (twice: the document twice) the first evaluation of the message on a new thread gave, which parses back to the message. An Err from write_xml is not judged and counted as an outcome class (messages with certificates / CSRs are written through base64's EncoderWriter, which makes write_all fail with WriteZero once its sink has made a short write: dependency behaviour). No sink of this space ever answers Ok(0), and none is ever full: a sink that answers Ok(0) for ever makes the encoder's Drop retry without end (dependency behaviour as well), so such sinks are never driven into it here or in history.independent; non-trivial = short-write, interrupting and buffering sinks");
     let fails = Ordered::new();
     let signer = rpki_verif::engine::signer::PoolSigner::load();
     sh.menu.par_iter().enumerate().for_each(|(mi, (name, m))| {
@@ -3284,20 +3344,22 @@ fn space_sinks(ctx: &Ctx, sh: &Shared) {
         let mut oc: BTreeMap<&'static str, u64> = BTreeMap::new();
         let (mut n, mut nt) = (0u64, 0u64);
         for (ki, k) in SINKS.iter().enumerate() { for times in [1usize, 2] {
-            // an Ok(0)-prone sink is never full here; the interrupting sink is left out for documents written
-            // through base64's EncoderWriter, whose Drop gives up on an interrupted final write (dependency
-            // behaviour; see the report)
-            if *k == SinkKind::Interrupting && m.uses_encoder_writer() { continue }
             n += 1;
             let plain = matches!(k, SinkKind::Vec | SinkKind::DynWrite | SinkKind::Cursor | SinkKind::SliceExact | SinkKind::SliceLarger);
             if !plain { nt += 1 }
             *oc.entry(if plain { "plain-sink" } else if *k == SinkKind::Interrupting { "interrupting-sink" } else if matches!(k, SinkKind::Chunk(_) | SinkKind::Vectored) { "short-write-sink" } else { "buffering-sink" }).or_insert(0) += 1;
+            let mut refused = false;
             fails.check((mi as u64) << 16 | (ki as u64) << 4 | times as u64, "C11.call_parameters.sinks", || format!("write_xml of {name} {times}x into {k:?}"), || {
-                let got = write_into(m, *k, times, canon.len())?;
+                // judged: IF the entry point reports success, what reached the sink is the document. An Err is
+                // not judged (certificates and CSRs go through base64's EncoderWriter, which answers Ok(0) to
+                // write_all after a short write of its sink: write_xml then fails with WriteZero -- dependency
+                // behaviour, recorded as an outcome class)
+                let got = match write_into(m, *k, times, canon.len()) { Ok(g) => g, Err(e) if e.starts_with("write_xml fails") => { refused = true; return Ok(()) } Err(e) => return Err(e) };
                 let want: Vec<u8> = canon.iter().copied().cycle().take(canon.len() * times).collect();
-                if got != want { return Err(format!("{} octets arrived, the document has {} x {times}; {}", got.len(), canon.len(), trunc(&first_difference(&text(&got), &text(&want)), 300))) }
+                if got != want { return Err(format!("write_xml returns Ok, but {} octets arrived and the document has {} x {times}; {}", got.len(), canon.len(), trunc(&first_difference(&text(&got), &text(&want)), 300))) }
                 Ok(())
             });
+            if refused { *oc.entry("write_xml-returned-an-error (not judged)").or_insert(0) += 1 }
         }}
         // the other entry points
         n += 1; *oc.entry("entry-points").or_insert(0) += 1;
@@ -3424,6 +3486,7 @@ fn val_texts(set: usize) -> ValTexts {
     match set {
         0 => ValTexts { h1: "child".into(), h2: "parent".into(), rsync: "rsync://h/m/a.cer".into(), rsync2: "rsync://h/m/".into(), https: "https://h/n.xml".into(), svc: "https://h/s".into(), content: b"abc".to_vec(), tag: Some("t".into()), class: "c".into() },
         1 => ValTexts { h1: "A/b_c-9".into(), h2: "-".into(), rsync: "rsync://a&b/m'/x&y".into(), rsync2: "rsync://h/m/''&&/".into(), https: "https://a&b'c/x&y".into(), svc: SVC_SPECIAL.into(), content: b"<&\"'".to_vec(), tag: Some("t<&\"'>1".into()), class: "a\"b'c > d".into() },
+        2 => ValTexts { h1: "Child".into(), h2: "PARENT".into(), rsync: "RSYNC://Host.Example/Module/A.CER".into(), rsync2: "rSyNc://h/m/".into(), https: "HTTPS://Host.Example/N.xml".into(), svc: "HTTPS://H/s".into(), content: b"ABC".to_vec(), tag: Some("T".into()), class: "C".into() },
         _ => ValTexts { h1: "a".repeat(255), h2: "/".repeat(255), rsync: format!("rsync://h/m/{}", "a&".repeat(150)), rsync2: format!("rsync://h/m/{}/", "d'".repeat(150)), https: format!("https://h/{}", "&".repeat(300)),
             svc: format!("http://h/{}", "a&".repeat(150)), content: pattern(1000, 3), tag: None, class: long_text(300) },
     }
@@ -3438,12 +3501,15 @@ impl Vals {
             cert: Cert::decode(fx.certs[1].1.to_captured().as_slice()).map_err(|e| e.to_string())?, csr: RpkiCaCsr::decode(fx.csrs[0].1.to_captured().as_slice()).map_err(|e| e.to_string())?,
             hash: fx.hashes[2], key: fx.keys[3] })
     }
-    /// every value still reads as the text it was made from
-    fn intact(&self, fx: &Fx, t: &ValTexts) -> Result<(), String> {
-        agree!(self.h1.as_str(), t.h1.as_str(), "handle 1"); agree!(self.h2.as_str(), t.h2.as_str(), "handle 2");
-        agree!(self.rsync.as_str(), t.rsync.as_str(), "rsync URI"); agree!(self.rsync2.as_str(), t.rsync2.as_str(), "second rsync URI"); agree!(self.https.as_str(), t.https.as_str(), "https URI");
-        agree!(self.svc.as_str(), t.svc.as_str(), "service URI"); agree!(self.b64.to_bytes().as_ref(), t.content.as_slice(), "content"); agree!(self.tag, t.tag, "tag"); agree!(self.class.as_ref(), t.class.as_str(), "class name");
-        agree!(self.cert.to_captured().as_slice(), fx.certs[1].1.to_captured().as_slice(), "certificate"); agree!(self.csr.to_captured().as_slice(), fx.csrs[0].1.to_captured().as_slice(), "CSR");
+    /// every value as text
+    fn snapshot(&self) -> Vec<(&'static str, String)> {
+        vec![("handle 1", self.h1.as_str().into()), ("handle 2", self.h2.as_str().into()), ("rsync URI", self.rsync.as_str().into()), ("second rsync URI", self.rsync2.as_str().into()), ("https URI", self.https.as_str().into()),
+            ("service URI", self.svc.as_str().into()), ("content", self.b64.as_str().into()), ("tag", format!("{:?}", self.tag)), ("class name", self.class.as_ref().into()),
+            ("certificate", hex(self.cert.to_captured().as_slice())), ("CSR", hex(self.csr.to_captured().as_slice())), ("hash", self.hash.to_string()), ("key", self.key.to_string())]
+    }
+    /// every value still reads as it did when `want` was taken
+    fn intact(&self, want: &[(&'static str, String)]) -> Result<(), String> {
+        for ((what, a), (_, b)) in self.snapshot().iter().zip(want) { if a != b { return Err(format!("{what}: {:?} vs {:?}", trunc(a, 120), trunc(b, 120))) } }
         Ok(())
     }
 }
@@ -3479,9 +3545,9 @@ const FORMS: [&str; 7] = ["sole owner", "live clones of every value", "clones dr
 fn space_ownership(ctx: &Ctx, sh: &Shared) {
     let fx = sh.fx;
     let sp = ctx.space("ownership.shared_values",
-        "one message of each of 12 constructor kinds built from field values (handles, rsync / https / service URIs, base64 content, tag, class name, certificate, CSR) in 3 value sets (plain, every XML-special character, long) whose buffers are (0) solely owned, (1) shared with live clones, (2) shared with clones dropped just before, (3) views into larger Bytes buffers / Arcs shared between both handles, (4) static, (5) parts taken out of other decoded messages through unpack / into_* / accessors with the source messages alive, (6) the same with the sources dropped: the document equals the one the sole-owner twin gives, it parses back to the message, the accessor sweep holds, the other holders (clones, larger buffers, source messages) read and write unchanged afterwards and after the message is dropped, and a second message built from the holders gives the document again; non-trivial = forms 1..6");
+        "one message of each of 12 constructor kinds built from field values (handles, rsync / https / service URIs, base64 content, tag, class name, certificate, CSR) in 4 value sets (plain, every XML-special character, upper / mixed letter case, long) whose buffers are (0) solely owned, (1) shared with live clones, (2) shared with clones dropped just before, (3) views into larger Bytes buffers / Arcs shared between both handles, (4) static, (5) parts taken out of other decoded messages through unpack / into_* / accessors with the source messages alive, (6) the same with the sources dropped: the document equals the one the sole-owner twin gives, it parses back to the message, the accessor sweep holds, the other holders (clones, larger buffers, source messages) read and write unchanged afterwards and after the message is dropped, and a second message built from the holders gives the document again; non-trivial = forms 1..6");
     let fails = Ordered::new();
-    let cases: Vec<(usize, usize, usize)> = (0..3).flat_map(|s| (0..BUILD_KINDS.len()).flat_map(move |k| (0..FORMS.len()).map(move |f| (s, k, f)))).collect();
+    let cases: Vec<(usize, usize, usize)> = (0..4).flat_map(|s| (0..BUILD_KINDS.len()).flat_map(move |k| (0..FORMS.len()).map(move |f| (s, k, f)))).collect();
     cases.par_iter().for_each(|&(set, kind, form)| {
         sp.eval(); if form > 0 { sp.nontrivial(1) }
         sp.outcome(FORMS[form]);
@@ -3498,7 +3564,7 @@ fn space_ownership(ctx: &Ctx, sh: &Shared) {
             };
             match form {
                 0 => judge(&build(fx, kind, Vals::fresh(fx, &t)?), "built"),
-                1 => { let v = Vals::fresh(fx, &t)?; let m = build(fx, kind, v.clone()); judge(&m, "built")?; v.intact(fx, &t)?; drop(m); v.intact(fx, &t)?; judge(&build(fx, kind, v), "built again from the clones") }
+                1 => { let v = Vals::fresh(fx, &t)?; let snap = v.snapshot(); let m = build(fx, kind, v.clone()); judge(&m, "built")?; v.intact(&snap)?; drop(m); v.intact(&snap)?; judge(&build(fx, kind, v), "built again from the clones") }
                 2 => { let v = Vals::fresh(fx, &t)?; drop(v.clone()); judge(&build(fx, kind, v), "built") }
                 3 => {
                     let big = |s: &str| Bytes::from(format!("##{s}##").into_bytes());
@@ -3513,6 +3579,7 @@ fn space_ownership(ctx: &Ctx, sh: &Shared) {
                     v.cert = Cert::decode(bigcert.slice(5..5 + der.len())).map_err(|e| e.to_string())?;
                     v.h1 = idx::Handle::new(arc1.clone());
                     if t.h1 == t.h2 { v.h2 = idx::Handle::from(&arc1) }
+                    let snap = v.snapshot();
                     let m = build(fx, kind, v.clone());
                     judge(&m, "built")?;
                     let check = || -> Result<(), String> {
@@ -3520,7 +3587,7 @@ fn space_ownership(ctx: &Ctx, sh: &Shared) {
                         agree!(&b3[..], format!("##{}##", t.https).as_bytes(), "the larger buffer of the https URI"); agree!(&bigcert[5..5 + der.len()], der.as_slice(), "the larger buffer of the certificate");
                         agree!(&*arc1, t.h1.as_str(), "the shared Arc<str>"); Ok(())
                     };
-                    check()?; v.intact(fx, &t)?; drop(m); check()?; v.intact(fx, &t)?;
+                    check()?; v.intact(&snap)?; drop(m); check()?; v.intact(&snap)?;
                     judge(&build(fx, kind, v), "built again from the views")
                 }
                 4 => {
@@ -3529,8 +3596,9 @@ fn space_ownership(ctx: &Ctx, sh: &Shared) {
                     v.rsync = uri::Rsync::from_bytes(Bytes::from_static(leak(&t.rsync))).map_err(|e| e.to_string())?;
                     v.rsync2 = uri::Rsync::from_bytes(Bytes::from_static(leak(&t.rsync2))).map_err(|e| e.to_string())?;
                     v.https = uri::Https::from_bytes(Bytes::from_static(leak(&t.https))).map_err(|e| e.to_string())?;
+                    let snap = v.snapshot();
                     let m = build(fx, kind, v.clone());
-                    judge(&m, "built")?; drop(m); v.intact(fx, &t)?;
+                    judge(&m, "built")?; drop(m); v.intact(&snap)?;
                     judge(&build(fx, kind, v), "built again")
                 }
                 _ => {
@@ -3550,14 +3618,15 @@ fn space_ownership(ctx: &Ctx, sh: &Shared) {
                             _ => {} } } },
                         AnyMsg::Repo(m) => { v.svc = m.service_uri().clone(); v.rsync2 = m.repo_info().base_uri().clone(); if let Some(h) = m.rrdp_notification_uri() { v.https = h.clone() } }
                         _ => {} } }
-                    v.intact(fx, &t).map_err(|e| format!("a part of a decoded message is not what was written: {e}"))?;
+                    let snap = Vals::fresh(fx, &t)?.snapshot();
+                    v.intact(&snap).map_err(|e| format!("a part of a decoded message is not what was written: {e}"))?;
                     if form == 6 { drop(sources); return judge(&build(fx, kind, v), "built from the parts") }
                     let m = build(fx, kind, v.clone());
                     judge(&m, "built from the parts")?;
                     for (s, d) in &sources { if s.to_vec() != *d { return Err("a source message writes another document after its parts were used".into()) } }
                     drop(m);
                     for (s, d) in &sources { if s.to_vec() != *d { return Err("a source message writes another document after the built message was dropped".into()) } }
-                    v.intact(fx, &t)?;
+                    v.intact(&snap)?;
                     judge(&build(fx, kind, v), "built again from the parts")
                 }
             }
@@ -3565,7 +3634,7 @@ fn space_ownership(ctx: &Ctx, sh: &Shared) {
     });
     fails.flush(ctx, &sp);
     sp.sample_str(|| format!("{} from value set 1, {}", BUILD_KINDS[7], FORMS[3]));
-    sp.done(true, &format!("3 value sets x {} constructor kinds x {} ownership forms", BUILD_KINDS.len(), FORMS.len()));
+    sp.done(true, &format!("4 value sets x {} constructor kinds x {} ownership forms", BUILD_KINDS.len(), FORMS.len()));
 }
 
 fn main() {
@@ -3582,7 +3651,8 @@ fn main() {
     ctx.assume("non-ASCII field values are outside the property (rejected by ascii_into by design)");
     ctx.assume("quick-xml, base64, chrono and bcder are trusted as libraries; the well-formedness verdict comes from the checker in this file, quick-xml's raw reader is only a second opinion");
     let t0 = std::time::Instant::now();
-    let lap = |what: &str| if std::env::var_os("C11_TIMING").is_some() { eprintln!("[timing] {what}: {:.1}s", t0.elapsed().as_secs_f64()) };
+    let cpu = || { let mut ts = libc::timespec { tv_sec: 0, tv_nsec: 0 }; unsafe { libc::clock_gettime(libc::CLOCK_PROCESS_CPUTIME_ID, &mut ts); } ts.tv_sec as f64 + ts.tv_nsec as f64 * 1e-9 };
+    let lap = |what: &str| if std::env::var_os("C11_TIMING").is_some() { eprintln!("[timing] {what}: {:.1}s wall, {:.1}s process CPU", t0.elapsed().as_secs_f64(), cpu()) };
     wf_selftest(&ctx);
     let fx = Fx::load(&ctx);
     lap("fixtures");
@@ -3597,8 +3667,8 @@ fn main() {
     // sequences, environment, call parameters, shared values: a panic of the explorer code here can only come
     // from the library misbehaving on the menu messages (each group is seen to complete on the unchanged tree)
     let sh = Shared::load(&fx);
-    let groups: [(&str, fn(&Ctx, &Shared)); 7] = [("history", space_history), ("environment", space_environment), ("display", space_display), ("sinks", space_sinks),
-        ("handed_out", space_handed_out), ("ownership", space_ownership), ("scratch", |_, _| ())];
+    let groups: [(&str, fn(&Ctx, &Shared)); 6] = [("history", space_history), ("environment", space_environment), ("display", space_display), ("sinks", space_sinks),
+        ("handed_out", space_handed_out), ("ownership", space_ownership)];
     for (name, f) in groups {
         if let Err(p) = guard(|| f(&ctx, &sh)) { ctx.fail(&format!("C11.{name}.nopanic"), format!("space group {name}"), format!("the explorer was stopped by a panic: {p}")) }
         lap(name);
